@@ -172,6 +172,36 @@ def cb : P String := do
   let vd := vd.diffIf (!(closeQ tol (dot S bf (val e)) value)) "crossSumBestAtBelief value_differs"
   return vd.render
 
+/-- `perseus pomdp nB beliefs v0 h | vf` : the whole PERSEUS run against `perseusRun` -/
+def perseus : P String := do
+  let m ← pomdpP; let bs ← P.list P.qs; let v0 ← P.q; let h ← P.nat; P.bar
+  let v ← vfP; P.eof
+  let mv := perseusRun m (bs.map bfun) v0 h
+  let vd : Verdict := { tag := "perseus" }
+  let bad := match v with | [] => none | v0 :: rest => firstBad m 1 v0 rest
+  let vd := match bad with
+    | some (hh, what, dev) => vd.failIf true s!"PERSEUS {what} horizon={hh} dev={qstr dev}"
+    | none => vd
+  let same := mv.length == v.length && (mv.zip v).all (fun p => sameVList p.1 p.2)
+  -- beliefs are normalised doubles: a comparison inside the sweep can flip by rounding; then the run is only checked, not compared
+  let vd := if same then vd else { vd with tag := "perseus rounded" }
+  return vd.render
+
+/-- `wv pomdp w a entry | agenda tried` : Witness::addDefaultEntry followed by addVariations(row, entry) -/
+def wv : P String := do
+  let m ← pomdpP; let w ← vlistP; let a ← P.nat; let e ← ventryP; P.bar
+  let agenda ← P.list P.qs; let tried ← P.list P.nats; P.eof
+  let row := (List.range m.O).map (fun o => project m w a o)
+  let v0 := row.foldl (fun acc r => addV acc (entryAt r 0).values) (List.replicate m.S 0)
+  let st := addVariations row e ⟨[], [v0], [List.replicate m.O 0]⟩
+  let vd : Verdict := { tag := "wv" }
+  let sameAgenda := st.agenda.length == agenda.length &&
+    (st.agenda.zip agenda).all (fun p => p.1.length == p.2.length && (p.1.zip p.2).all (fun q => closeQ tol q.1 q.2))
+  let sameTried := st.tried.length == tried.length && st.tried.all (fun t => tried.contains t) && tried.all (fun t => st.tried.contains t)
+  let vd := vd.diffIf (!sameAgenda) s!"Witness::addVariations agenda model={st.agenda.length} impl={agenda.length}"
+  let vd := vd.diffIf (!sameTried) s!"Witness::addVariations tried model={st.tried.length} impl={tried.length}"
+  return vd.render
+
 /-- `pbvi pomdp nB beliefs h | vf` : the whole PBVI run against `pbviRun` -/
 def pbvi : P String := do
   let m ← pomdpP; let bs ← P.list P.qs; let h ← P.nat; P.bar
@@ -198,6 +228,8 @@ def handle (toks : List String) : String :=
     | "pj" :: rest => P.run pj rest
     | "cb" :: rest => P.run cb rest
     | "pbvi" :: rest => P.run pbvi rest
+    | "wv" :: rest => P.run wv rest
+    | "perseus" :: rest => P.run perseus rest
     | _ => none
   r.getD "bad-op"
 
